@@ -194,3 +194,19 @@ func VerifUnprotect()            {}
 // producer goroutine behaves (receives `budget` values, then cancels); natively
 // the real goroutines run and this is a no-op.
 func VerifConsumerScript(budget int, cancels bool) {}
+
+// VerifTempName: a file name private to this process (a ghost name for the
+// executor), so that concurrent native replays never share files.
+var verifTempDir string
+
+func VerifTempName(base string) string {
+	if verifTempDir == "" {
+		d, err := os.MkdirTemp("", "vcheck-native-")
+		if err != nil {
+			panic(VerifStop{"no temp dir"})
+		}
+		verifTempDir = d
+	}
+	return verifTempDir + "/" + base
+}
+func verifTempName(base string) string { return VerifTempName(base) }
